@@ -138,7 +138,7 @@ def run(ck):
   done = 0
   while done < n:
     k = min(20, n - done)
-    designs = [rtlgen.generate(ck.rng, max_blocks=8, wide=(ck.rng.random() < 0.15)) for _ in range(k)]
+    designs = [(rtlgen.generate_slices(ck.rng) if ck.rng.random() < 0.2 else rtlgen.generate(ck.rng, max_blocks=8, wide=(ck.rng.random() < 0.15))) for _ in range(k)]
     process(ck, designs, n_ext, ck.rng.randint(6, 10))
     done += k
     if len(ck.violations) > 10: break
